@@ -10,7 +10,8 @@ RULE = ('flat cases: a data set of n sorted entries (group key, start, DNA seque
         'several n, sum_and_n / mean / bincount / histogram (explicit bins+range) / count_kmers (k=1,2,3) on the stream, and '
         'groupby on four kinds of key column (StringArray, EncodedRaggedArray, int, StringEncoding-encoded). genome cases: '
         'genomes of 1..4 chromosomes, chunked interval streams through Genome.get_intervals(stream) and bnp.compute for '
-        'pileup, mask, pileup sum, histogram, (histogram,sum), values under windows, mean(axis=0) of those. '
+        'pileup, mask, pileup sum, histogram, (histogram,sum), values under windows, and mean(axis=0) / sum(axis=0) / np.sum of '
+        'those; get_reverse_complement as a streamable function without reduction. '
         'non-trivial = more than one chunk and some cut falls inside a group (flat) / inside a chromosome (genome)')
 EXHAUSTIVE = {'quick': False, 'thorough': False}
 TIE = ('translator+correspondence: translate/gen_c11.py regenerates the loop conditions, slice bounds, counter updates, '
@@ -24,9 +25,12 @@ ASSUMPTIONS = ['np.histogram with integer data and exactly representable edges (
                'count_kmers is exercised for k in {1,2,3} (k=1 since the window-of-one repair recorded under C13)',
                'floats (mean, histogram edges) are compared as exact rationals: streamed == in-memory, and within 2^-52 '
                'relative of the exact quotient']
-PARTIAL = ['C11_rechunk_partial: the pinned chunk_entries meets the size claim only when every incoming chunk plus the carried '
-           'remainder is shorter than 2n',
-           'C11_mean_axis0_partial: column means of ragged per-chromosome values need equal column counts per chromosome']
+PARTIAL = ['C11_pipeline_spec holds under pipeline_guard: mean(axis=0) of the values under windows needs equal column counts on '
+           'the chromosomes that have values (C11_pipeline_mean_refuted; none with the repaired mean_reduction, '
+           'C11_pipeline_spec_fixed); sum(axis=0) needs windows on every chromosome with equal column counts and np.sum a '
+           'single chromosome (C11_pipeline_sum_refuted)',
+           'C11_rechunk_partial / C11_rechunk_refuted speak about chunk_entries_pinned (the `if` of the pinned commit); the current '
+           'code is covered by the full C11_rechunk_fixed']
 PER_FILE = 24
 TAGS = ['a', 'b', 'ab', 'ac', 'abc', 'bb', 'c', 'ca', 'abcd', 'd', 'e', 'f', 'g']
 DNA = 'ACGT'
@@ -160,9 +164,10 @@ def generate(tier, seed):
             for i, sa in enumerate(comps_a):
                 sb = [len(b)] if i % 3 == 0 else ([1] * len(b) if i % 3 == 1 else random_composition(rng, len(b), 0.5))
                 cases.append(_gen(sizes, a, b, sa, sb))
-                cases.append(_gen(sizes, a, b, sa, sb, kind='genmean'))
+                for kind in ('genmean', 'gensum', 'gensum0'):
+                    cases.append(_gen(sizes, a, b, sa, sb, kind=kind))
     # small cases first
-    order = dict(rechunk=0, flat=1, gen=2, genmean=3)
+    order = dict(rechunk=0, flat=1, gen=2, genmean=3, gensum=4, gensum0=5)
     cases.sort(key=lambda c: (order[c['kind']], _n_of(c), len(c['sa'] if 'sa' in c else c['sizes'])))
     return cases
 
@@ -240,6 +245,9 @@ def _observe_flat(case):
     out['hist'] = [[k, lo, hi, guard(lambda: hist(k, lo, hi))] for k, lo, hi in HISTS]
     out['kmers'] = [[k, guard(lambda: [int(x) for x in count_kmers(stream().sequence, k).counts])] for k in (1, 2, 3)]
 
+    out['revcomp'] = guard(lambda: [[[DNA.index(ch) for ch in row.to_string()] for row in chunk]
+                                    for chunk in bnp.sequence.get_reverse_complement(stream().sequence)])
+
     def groups(field, obj=allrows, cls=Entry, fld='uid', fresh=False):
         res = []
         st = stream(obj, cls)
@@ -316,6 +324,9 @@ def _observe_gen(case):
     def ratios(v):
         return [_ratio(x) for x in np.asarray(v).ravel()]
 
+    def ints(v):
+        return [int(x) for x in np.asarray(v).ravel()]
+
     def hs(t):
         h, s = t
         return [[int(x) for x in h[0]], int(s)]
@@ -329,10 +340,13 @@ def _observe_gen(case):
          lambda: hs((lambda p: (np.histogram(p, bins=k, range=(lo, hi)), p.sum()))(ma.get_pileup()))),
         ('values', lambda: ragged(bnp.compute(sa().get_pileup()[sb()])), lambda: ragged(ma.get_pileup()[mb])),
         ('mean0', lambda: ratios(bnp.compute(sa().get_pileup()[sb()].mean(axis=0))), lambda: ratios(ma.get_pileup()[mb].mean(axis=0))),
+        ('sumall', lambda: ints(bnp.compute(np.sum(sa().get_pileup()[sb()]))), lambda: ints(np.sum(ma.get_pileup()[mb]))),
+        ('sum0', lambda: ints(bnp.compute(sa().get_pileup()[sb()].sum(axis=0))), lambda: ints(ma.get_pileup()[mb].sum(axis=0))),
     ]
+    own = dict(genmean='mean0', gensum='sumall', gensum0='sum0')
     out = {}
     for name, fs, fm in pipes:
-        if (name == 'mean0') != (case['kind'] == 'genmean'):
+        if (name in own.values()) != (case['kind'] in own) or (case['kind'] in own and own[case['kind']] != name):
             continue
         r = []
         for f in (fs, fm):
@@ -345,7 +359,7 @@ def _observe_gen(case):
 
 
 def observe(case):
-    return dict(flat=_observe_flat, rechunk=_observe_rechunk, gen=_observe_gen, genmean=_observe_gen)[case['kind']](case)
+    return dict(flat=_observe_flat, rechunk=_observe_rechunk).get(case['kind'], _observe_gen)(case)
 
 
 # ----------------------------------------------------------------------------- python-side reference (explain / finding signature only)
@@ -406,6 +420,9 @@ def failing_components(case, o):
                     ref[sum(v * 4 ** j for j, v in enumerate(s[i:i + k]))] += 1
             if c != ref:
                 bad.append('kmers')
+        rc = [[3 - DNA.index(ch) for ch in reversed(e[2])] for e in case['entries']]
+        if _is_err(o['revcomp']) or sum(o['revcomp'], []) != rc or [len(c) for c in o['revcomp']] != case['sizes']:
+            bad.append('revcomp')
         ref = [[g, [i for i, e in enumerate(case['entries']) if e[0] == g]] for g in sorted(set(e[0] for e in case['entries']))]
         for name, fast, gs in o['groups']:
             if _is_err(gs) or [x[1] for x in gs] != [x[1] for x in ref]:
@@ -427,20 +444,62 @@ def explain(case, o):
     return dict(failing_components=failing_components(case, o))
 
 
+def _chrom_rows(case):
+    """values under the windows, per chromosome: the ground truth the Coq spec computes too"""
+    out = []
+    for c, size in enumerate(case['sizes']):
+        cov = [sum(1 for cc, a, b in case['a'] if cc == c and a <= p < b) for p in range(size)]
+        out.append([cov[a:b] for cc, a, b in case['b'] if cc == c])
+    return out
+
+
+def _predict(case):
+    """what the MODEL of the current reductions gives for the single pipeline of a genmean/gensum/gensum0 case:
+    ('error',) or ('value', list) — used only to make the finding matchers exact"""
+    rows = _chrom_rows(case)
+    if case['kind'] == 'gensum':                       # operator.add on per-window sums, NumPy broadcasting
+        acc = None
+        for r in rows:
+            v = [sum(x) for x in r]
+            if acc is None:
+                acc = v
+            elif len(acc) == len(v):
+                acc = [x + y for x, y in zip(acc, v)]
+            elif len(acc) == 1:
+                acc = [acc[0] + y for y in v]
+            elif len(v) == 1:
+                acc = [x + v[0] for x in acc]
+            else:
+                return ('error',)
+        return ('value', acc)
+    ncols = [max(len(x) for x in r) if r else None for r in rows]
+    if case['kind'] == 'gensum0':                      # operator.add on column sums: every chromosome needs windows
+        if None in ncols or len(set(ncols)) > 1:
+            return ('error',)
+        return ('value', None)
+    if len(set(n for n in ncols if n is not None)) > 1:   # genmean: `+` on column sums of chromosomes with values
+        return ('error',)
+    return ('value', None)
+
+
+FINDING_OF = dict(genmean=('mean0', 'C11-mean-axis0-ragged-columns'), gensum=('sumall', 'C11-sum-values-per-window'),
+                  gensum0=('sum0', 'C11-sum-axis0-ragged-columns'))
+
+
 def finding(case, o):
-    bad = failing_components(case, o)
-    if case['kind'] == 'rechunk' and bad == ['chunk_entries']:
-        # every failing n must be one where the single `if` leaves a full chunk behind, and nothing is lost or reordered
-        ids = list(range(sum(case['sizes'])))
-        for ne, out in o['entries']:
-            failed = _is_err(out) or sum(out, []) != ids or not _sizes_ok(1, ne, [len(c) for c in out])
-            if failed and not (not _is_err(out) and sum(out, []) == ids and _if_defect_applies(case['sizes'], ne)):
-                return None
-        return 'C11-chunk-entries-if'
-    if case['kind'] == 'genmean' and bad == ['mean0']:
-        s, m = o['mean0']
-        if _is_err(s) and not _is_err(m) and len(set(_per_chrom_max(case).values())) > 1:
-            return 'C11-mean-axis0-ragged-columns'
+    """an id only when the observed failure is exactly the listed mode: the in-memory evaluation is fine, and the streamed
+    observation is what the model of the current reduction predicts (so a disagreement with the model is never matched)"""
+    if case['kind'] not in FINDING_OF:
+        return None
+    name, fid = FINDING_OF[case['kind']]
+    s, m = o[name]
+    if _is_err(m):
+        return None
+    pred = _predict(case)
+    if pred == ('error',):
+        return fid if _is_err(s) and s['error'] in ('AssertionError', 'ValueError', 'ComputationException') else None
+    if case['kind'] == 'gensum' and pred[1] is not None and not _is_err(s) and s == pred[1] and s != m and len(case['sizes']) >= 2:
+        return fid
     return None
 
 
@@ -489,9 +548,10 @@ def _flat_to_coq(case, o):
                   for key, ids in gs]
         groups.append('(%s, %s)' % (cbool(fast), clist(gl, '(Z * list Z)')))
     return ('CFlat {| f_chunks := %s; f_sum_n := %s; f_mean := %s; f_mean_mem := %s; '
-            'f_bincount := %s; f_hist := %s; f_kmers := %s; f_groups := %s |}' % (
+            'f_bincount := %s; f_hist := %s; f_kmers := %s; f_revcomp := %s; f_groups := %s |}' % (
                 cchunks, _pair(*sum_n), _rat(mean), _rat(mean_mem), zl(bincount),
                 clist(hist, '(Z * Z * Z * list Z * list ratio)'), clist(kmers, '(Z * list Z)'),
+                clist([_zll(c) for c in ([[[-7]]] if _is_err(o['revcomp']) else o['revcomp'])], 'list (list Z)'),
                 clist(groups, '(bool * list (Z * list Z))')))
 
 
@@ -516,6 +576,8 @@ def _pobs(name, v):
         return 'OHistSum %s %s' % (zl(v[0]), cz(v[1]))
     if name == 'values':
         return 'OValues %s' % _zll(v)
+    if name in ('sumall', 'sum0'):
+        return 'OList %s' % zl(v)
     if name == 'mean0':
         if any(r is None for r in v):
             return 'OError'
@@ -529,15 +591,16 @@ def _gen_to_coq(case, o):
                      'list (Z * iv)')
     k, lo, hi = case['hist']
     pipe = dict(pileup='PPileup', mask='PMask', sum='PPileupSum', hist='(PPileupHist %s %s %s)' % (cz(k), cz(lo), cz(hi)),
-                hist_sum='(PHistAndSum %s %s %s)' % (cz(k), cz(lo), cz(hi)), values='PValues', mean0='PValuesMean0')
+                hist_sum='(PHistAndSum %s %s %s)' % (cz(k), cz(lo), cz(hi)), values='PValues', mean0='PValuesMean0',
+                sumall='PValuesSum', sum0='PValuesSum0')
     runs = ['(%s, %s, %s)' % (pipe[name], _pobs(name, o[name][0]), _pobs(name, o[name][1]))
-            for name in ('pileup', 'mask', 'sum', 'hist', 'hist_sum', 'values', 'mean0') if name in o]
+            for name in ('pileup', 'mask', 'sum', 'hist', 'hist_sum', 'values', 'mean0', 'sumall', 'sum0') if name in o]
     return 'CGen {| g_sizes := %s; g_a := %s; g_b := %s; g_runs := %s |}' % (
         zl(case['sizes']), chunks(case['a'], case['sa']), chunks(case['b'], case['sb']), clist(runs))
 
 
 def to_coq(case, o):
-    return dict(flat=_flat_to_coq, rechunk=_rechunk_to_coq, gen=_gen_to_coq, genmean=_gen_to_coq)[case['kind']](case, o)
+    return dict(flat=_flat_to_coq, rechunk=_rechunk_to_coq).get(case['kind'], _gen_to_coq)(case, o)
 
 
 # ----------------------------------------------------------------------------- evidence helpers
@@ -569,7 +632,7 @@ def describe(case, o):
 
 
 def distribution(cases, obs):
-    d = dict(flat=0, rechunk=0, gen=0, genmean=0, n_entries={}, n_chunks={}, single_entry_chunks=0, cut_inside_group=0, chromosomes={},
+    d = dict(flat=0, rechunk=0, gen=0, genmean=0, gensum=0, gensum0=0, n_entries={}, n_chunks={}, single_entry_chunks=0, cut_inside_group=0, chromosomes={},
              streamed_errors={})
     for c, o in zip(cases, obs):
         d[c['kind']] += 1
